@@ -111,7 +111,12 @@ func (s *sink) panicOrHang(c Case, r runResult) {
 
 // single: one decoder run with the single-run oracles.
 func (s *sink) single(c Case, confirm bool) runResult {
-	r := execCase(c)
+	var r runResult
+	if confirm {
+		r = execCaseConfirm(c)
+	} else {
+		r = execCase(c)
+	}
 	if r.Verdict == "hang" {
 		s.Dirty = true
 		if !confirm {
